@@ -25,6 +25,12 @@ package list
 //@ def manages(p) = p == 1 || p == 2
 //@ def full(c) = c.verifier.ShouldValidate()
 //@ def wf(c) = c != nil && c.aclState != nil && c.verifier != nil && c.keyStore != nil
+// Permissions: the level stored for the identity's account entry, None without an entry (under
+// contract so that packages which give it a frame - objecttree, keyvaluestorage - see the same function)
+//@ func (*AclState).Permissions
+//@   modifies nothing
+//@   assumes st != nil
+//@   ensures [is_the_stored_level] result == permOf(st, identity)
 
 //@ func (*contentValidator).ValidatePermissionChange
 //@   modifies nothing
@@ -32,6 +38,7 @@ package list
 //@   ensures [manager_only]       full(c) && err == nil ==> manages(permOf(stOf(c), authorIdentity))
 //@   ensures [target_exists]      full(c) && err == nil ==> mapKeyFromPubKey(c.keyStore.PubKeyFromProto(ch.Identity)) in stOf(c).accountStates
 //@   ensures [guest_owner_fixed]  full(c) && err == nil ==> permOf(stOf(c), c.keyStore.PubKeyFromProto(ch.Identity)) != 5 && permOf(stOf(c), c.keyStore.PubKeyFromProto(ch.Identity)) != 1
+//@   ensures [target_holds_a_permission] full(c) && err == nil ==> permOf(stOf(c), c.keyStore.PubKeyFromProto(ch.Identity)) != 0
 //@   ensures [admin_revoke_owner] full(c) && err == nil && permOf(stOf(c), c.keyStore.PubKeyFromProto(ch.Identity)) == 2 ==> permOf(stOf(c), authorIdentity) == 1
 //@   ensures [admin_grant_owner]  full(c) && err == nil && ch.Permissions == 2 ==> permOf(stOf(c), authorIdentity) == 1
 //@   ensures [no_owner_grant]     full(c) && err == nil ==> ch.Permissions != 1
@@ -192,6 +199,12 @@ package list
 //@ func (*contentValidator).validateReadKeyChange
 //@   ensures [one_key_per_active_account] err == nil && c.verifier.ShouldValidate() ==> len(updatedUsers) == len(ch.AccountKeys) && len(activeUsers) == len(updatedUsers) && sameStrings(activeUsers, updatedUsers)
 //@   ensures [one_key_per_open_invite]    err == nil && c.verifier.ShouldValidate() ==> len(updatedInvites) == len(ch.InviteKeys) && len(activeInvites) == len(updatedInvites) && sameStrings(activeInvites, updatedInvites)
+//@   loop 0:
+//@     invariant [collected_accounts_hold_permissions] forall k int :: 0 <= k && k < len(activeUsers) ==> (exists a string :: a in c.aclState.accountStates && c.aclState.accountStates[a].Permissions != 0 && mapKeyFromPubKey(c.aclState.accountStates[a].PubKey) == activeUsers[k] && !(activeUsers[k] in removedUsers))
+//@     invariant activeUsers == nil || rootof(activeUsers) > 0
+//@   loop 1:
+//@     invariant [collected_invites_are_open] forall k int :: 0 <= k && k < len(activeInvites) ==> (exists a string :: a in c.aclState.invites && c.aclState.invites[a].Type == 1 && mapKeyFromPubKey(c.aclState.invites[a].Key) == activeInvites[k])
+//@     invariant activeInvites == nil || rootof(activeInvites) > 0
 //@   loop 2:
 //@     invariant len(updatedUsers) == rangeindex + 1
 //@   loop 3:
@@ -512,9 +525,23 @@ package list
 
 // C04: adding accounts and removing accounts change only the listed accounts; a removed account ends
 // with no permission; a rejected record (validator error) changes nothing.
+// C05: unpacking the key chain after (re)admission walks EVERY generation, newest to oldest: on
+// success each recorded read-key change has its read key in the account's key map.
+//@ func (*AclState).unmarshallDecryptReadKey
+//@   modifies nothing
+//@   posits [key_or_error] result1 == nil ==> result0 != nil
+//@ func (*AclState).unmarshallDecryptPrivKey
+//@   modifies nothing
 //@ func (*AclState).unpackAllKeys
-//@   trusted
 //@   modifies kinds map:map[string]list.AclKeys
+//@   requires st != nil
+//@   assumes st.keys != nil && st.key != nil
+//@   ensures [every_generation_unpacked] result == nil ==> (forall k int :: 0 <= k && k < len(st.readKeyChanges) ==> st.keys[st.readKeyChanges[k]].ReadKey != nil)
+//@   loop 0:
+//@     invariant -1 <= idx && idx < len(st.readKeyChanges) && st != nil && st.keys != nil && iterReadKey != nil
+//@     invariant st.readKeyChanges == old(st.readKeyChanges) && (forall k int :: 0 <= k && k < len(st.readKeyChanges) ==> st.readKeyChanges[k] == old(st.readKeyChanges[k]))
+//@     invariant forall k int :: idx < k && k < len(st.readKeyChanges) ==> st.keys[st.readKeyChanges[k]].ReadKey != nil
+//@     decreases idx + 1
 //@ func iface crypto.PubKey.Equals
 //@   pure
 //@ func (*AclState).applyAccountsAdd
@@ -578,3 +605,15 @@ package list
 //@   ensures [both_known_or_error] result1 == nil <==> (first in a.indexes && second in a.indexes)
 //@   ensures [error_is_false]      result1 != nil ==> !result0
 //@   ensures [position_order]      result1 == nil ==> (result0 <==> a.indexes[first] >= a.indexes[second])
+
+// ---------------------------------------------------------------------------------------------
+// C03/C11: "is this read-key entry ours" in the partial (keep-only-ours) decoder must agree with the
+// semantic comparison the full decoder's consumer makes (decode the identity, compare keys): the raw
+// byte comparison is only a fast path. An identity that does not decode is never ours and is never
+// handed to Equals.
+//@ func (*aclRecordBuilder).isOurIdentity
+//@   modifies nothing
+//@   requires a != nil && a.keyStorage != nil
+//@   ensures [raw_match_is_ours]       bytesEq(identity, a.ourIdentity) ==> result
+//@   ensures [semantic_match_is_ours]  a.keyStorage.PubKeyFromProto#1(identity) == nil && a.ourPubKey != nil && a.ourPubKey.Equals(a.keyStorage.PubKeyFromProto(identity)) ==> result
+//@   ensures [nothing_else_is_ours]    result ==> bytesEq(identity, a.ourIdentity) || (a.keyStorage.PubKeyFromProto#1(identity) == nil && a.ourPubKey != nil && a.ourPubKey.Equals(a.keyStorage.PubKeyFromProto(identity)))
